@@ -1458,6 +1458,10 @@ func (ge *GuardEngine) CheckReq(c *Ctx, rule string, req GuardReq, guards []Guar
 			problems = append(problems, fmt.Sprintf("%s: the comparison does not by itself lead to rejection (only in conjunction with other conditions)", where))
 			continue
 		}
+		if why := signedCompareOfUnsigned(cd.g.CondV); why != "" && (opIn("<", req.Ops) || opIn(">", req.Ops) || opIn("<=", req.Ops) || opIn(">=", req.Ops)) {
+			problems = append(problems, fmt.Sprintf("%s: %s", where, why))
+			continue
+		}
 		if miss := ge.missingWhile(cd.g, req.While); miss != "" {
 			problems = append(problems, fmt.Sprintf("%s: the guard is evaluated (and can reject) even when not /%s/", where, miss))
 			continue
@@ -2038,4 +2042,44 @@ func negatedDesc(a, b string) bool {
 		}
 	}
 	return false
+}
+
+// signedCompareOfUnsigned: an ordering comparison one of whose operands is a 64-bit unsigned value converted to a
+// signed type ("int64(n) > limit"): values of 2^63 and above compare as negative, so the bound does not bound them.
+func signedCompareOfUnsigned(v ssa.Value) string {
+	for {
+		u, ok := v.(*ssa.UnOp)
+		if !ok || u.Op != token.NOT {
+			break
+		}
+		v = u.X
+	}
+	bo, ok := v.(*ssa.BinOp)
+	if !ok {
+		return ""
+	}
+	switch bo.Op {
+	case token.LSS, token.LEQ, token.GTR, token.GEQ:
+	default:
+		return ""
+	}
+	for _, opnd := range []ssa.Value{bo.X, bo.Y} {
+		cv, ok := opnd.(*ssa.Convert)
+		if !ok {
+			continue
+		}
+		from, ok1 := cv.X.Type().Underlying().(*types.Basic)
+		to, ok2 := cv.Type().Underlying().(*types.Basic)
+		if !ok1 || !ok2 {
+			continue
+		}
+		if from.Info()&types.IsUnsigned != 0 && to.Info()&types.IsInteger != 0 && to.Info()&types.IsUnsigned == 0 {
+			if from.Kind() == types.Uint64 || from.Kind() == types.Uint || from.Kind() == types.Uintptr {
+				if _, isConst := cv.X.(*ssa.Const); !isConst {
+					return "the bound is compared in the signed domain (" + from.Name() + " converted to " + to.Name() + "): values of 2^63 and above compare as negative and pass"
+				}
+			}
+		}
+	}
+	return ""
 }
